@@ -27,14 +27,14 @@ package eng
 //        settle            2 s of virtual time (tickers, keep-alives)
 //        end               lifetime ends, everything is released; registries must be empty, handlers returned
 //
-// Hooks: only the four verifPoint hooks of /repo/proxy/verif_points.go are used.  The 13 log points replace hooks that
+// Hooks: the verifPoint hooks of /repo/proxy (RegisterShard.afterAdd, UnregisterShard.afterUnlock, sender.beforeClose,
+// sender.afterClose and replay.afterLookup = between the replay's channel look-up and its send) are used.  The 13 log points replace hooks that
 // would be cleaner as verifPoint lines (requested, not required): top of proxyStreamReceiver.Run (before
 // TerminatePreviousLocalReceiver; today GetLocalReceiverCancelFunc runs together with the release of the handler),
 // inside TerminatePreviousLocalReceiver after the get / after the cancel / after RemoveLocalReceiverCancelFunc, before
 // SetLocalAckChan / SetLocalReceiverCancelFunc / RegisterActiveReceiver, in the deferred clean-up before
 // RemoveLocalAckChan, after the outgoingContext.Err() test, before UnregisterActiveReceiver, in proxyStreamSender.Run
-// before SetRemoteSendChan and before RemoveRemoteSendChan, in sendPendingWatermarkToShard between the channel look-up
-// and the send.  (RegisterActiveReceiver / UnregisterActiveReceiver / the look-up-to-send gap have no preceding log
+// before SetRemoteSendChan and before RemoveRemoteSendChan.  (RegisterActiveReceiver / UnregisterActiveReceiver have no preceding log
 // line, so the engine cannot stop there: the model splits them, the driver runs them together.)
 //
 // Every trace runs in a CHILD PROCESS (the same test binary, -test.run ^TestC08Child$): a panic in a proxy
@@ -93,10 +93,11 @@ var c08LogPoints = map[string]string{
 
 var c08HookPoints = map[string]bool{
 	"RegisterShard.afterAdd": true, "sender.beforeClose": true, "sender.afterClose": true, "UnregisterShard.afterUnlock": true,
+	"replay.afterLookup": true, // between the replay's GetRemoteSendChan and its send (sendPendingWatermarkToShard)
 }
 
 // points a trace may pause at
-var c08AllPoints = []string{"s.start", "s.set", "RegisterShard.afterAdd", "s.replay", "sender.beforeClose", "sender.afterClose",
+var c08AllPoints = []string{"s.start", "s.set", "RegisterShard.afterAdd", "s.replay", "replay.afterLookup", "sender.beforeClose", "sender.afterClose",
 	"UnregisterShard.afterUnlock", "s.rmChan", "r.start", "r.term", "r.termRm", "r.termAck", "r.open", "r.setAck", "r.setCancel", "r.rmAck", "r.rmCancel"}
 
 func c08Role(point string) byte {
@@ -1040,6 +1041,15 @@ func TestC08(t *testing.T) {
 	}
 	e := NewEnv(t, engine)
 	defer e.Close(t)
+	// does the code under test have the schedule point replay.afterLookup?  (a checkout from before that hook runs the
+	// replay's look-up and send together; the model driver is told so: `begin nogap`)
+	begin := "begin"
+	probe := runC08Cases(t, e, [][]string{{"open 101", "wm 0 7", "pause replay.afterLookup 1", "open 201"}})
+	if len(probe[0].obs) != 4 || !strings.Contains(probe[0].obs[3], "1s@replay.afterLookup") {
+		begin = "begin nogap"
+		e.Count("code_without_replay_afterLookup_point")
+	}
+	e.Dist["child_processes"] = 0
 	var cases [][]string
 	if rc := e.ReplayLines(t); rc != nil {
 		cases = rc
@@ -1057,7 +1067,7 @@ func TestC08(t *testing.T) {
 		if i < 3 {
 			e.Sample(r.ops)
 		}
-		e.Emit("begin", "ok")
+		e.Emit(begin, "ok")
 		for j, op := range r.ops {
 			obs := "missing"
 			if j < len(r.obs) {
